@@ -239,6 +239,17 @@ def judge_stream(items, tmpdir=None):
             if d:
                 problems.append(("paths-differ:" + kind_of(d), "compact record from object vs from stream: %s" % d))
                 break
+            # --high_memory with several threads: the compact objects travel from the pool workers to the parent by pickle
+            import pickle
+            try:
+                b2 = basic_fields(pickle.loads(pickle.dumps(BasicReadAssignment(objs[ri - 1]))))
+            except Exception as e:
+                problems.append(("pickle-path-crash", "%s: %r" % (type(e).__name__, e)))
+                break
+            d = first_diff(b, b2)
+            if d:
+                problems.append(("pickle-differs:" + kind_of(d), "compact record before vs after the pickle round trip of the pool: %s" % d))
+                break
     finally:
         try:
             os.remove(path)
